@@ -1550,7 +1550,10 @@ def optimize_blockwise_fusion_array(expr):
                 seen_in_group.add(node._name)
 
                 group.append(node)
-                for dep_name in dependencies.get(node._name, set()):
+                # sorted: these are sets of name strings, whose iteration order varies with
+                # PYTHONHASHSEED; the visit order decides the member order (hence the name)
+                # of the fused node, i.e. the optimized graph keys.
+                for dep_name in sorted(dependencies.get(node._name, ())):
                     dep = expr_mapping[dep_name]
 
                     stack_names = {s._name for s in stack}
